@@ -16,8 +16,6 @@ package main
 import (
 	"fmt"
 	"runtime"
-	"os"
-	"runtime/pprof"
 	"strings"
 	"sync"
 	"sync/atomic"
@@ -42,7 +40,6 @@ type Case struct {
 
 type fail struct{ sig, what string }
 
-var stopProfile = func() {}
 var ballast []byte
 
 var spaces sync.Map
@@ -179,13 +176,6 @@ func main() {
 			}
 		}
 		return
-	}
-	if pf := os.Getenv("C20_CPUPROFILE"); pf != "" {
-		if f, err := os.Create(pf); err == nil {
-			_ = pprof.StartCPUProfile(f)
-			defer pprof.StopCPUProfile()
-			stopProfile = pprof.StopCPUProfile
-		}
 	}
 	// every case makes many tiny short-lived allocations while the live heap is
 	// a few MB: an (untouched) ballast keeps the collector from running every
@@ -376,7 +366,7 @@ func main() {
 			}
 			states.Add(1)
 		}
-		qLen := r.Pick(4, 5)
+		qLen := r.Pick(4, 6)
 		r.Set("c.quoted_symbols", quotedSyms)
 		r.Set("c.quoted_max_body_len", qLen)
 		qTotal := quotedCount(qLen)
@@ -490,12 +480,11 @@ func main() {
 	r.Assume("(a) the docs do not state associativity inside a binary level: pinned to Go's left-to-right rule (the tutorial's precedence paragraph and table are Go's); deviations are reported under assoc/")
 	r.Assume("(a) the docs do not state how nested ternaries group (a ? b : c ? d : e, or a ternary as condition): the generator always parenthesises those, so no claim is made; a ternary between '?' and ':' needs no parentheses because only one grouping is possible")
 	r.Assume("(a) selector/index/call applied to an operand bind tighter than a unary operator in front of it (-a.s is -(a.s)), as in Go; the docs show chains such as m.c() and m[\"b\"][1] but no unary example")
-	r.Assume("(b) Tengo's documentation does not describe semicolon insertion (tutorial.md only says the syntax follows Go and shows newline-separated statements). The trigger set is Go's rule 1 (spec, 'Semicolons') carried to Tengo's tokens: identifier; int, float, char, string literal; break, continue, return; ++ -- ) ] }. Go's predeclared identifiers true/false/nil are the keywords true/false/undefined in Tengo and stay in the set; export is in the set because tutorial.md defines it as the module-level 'return'; fallthrough has no counterpart. A comment containing a newline acts as a newline, any other comment as a space (Go spec, 'Comments'); the end of input ends a line")
+	r.Assume("(b) Tengo's documentation does not describe semicolon insertion (tutorial.md only says the syntax follows Go and shows newline-separated statements). The trigger set is Go's rule 1 (spec, 'Semicolons') carried to Tengo's tokens: identifier; int, float, char, string literal; break, continue, return; ++ -- ) ] }. Go's predeclared identifiers true/false/nil are the keywords true/false/undefined in Tengo and stay in the set; export is in the set because tutorial.md defines it as the module-level 'return'; fallthrough has no counterpart. A comment containing a newline acts as a newline, any other comment as a space (Go spec, 'Comments'); the end of input ends a line; an inserted semicolon carries the literal \"\\n\", a written one \";\" (go/scanner's convention)")
 	r.Assume("(b) parse level: only layouts where both the layout and its reference spelling parse are compared; Tengo tolerates a newline (not ';') before the closing bracket of call arguments / array / map literals (tutorial.md's multi-line map example relies on it), which is therefore not compared")
 	r.Assume("(c) reference = go/scanner (one INT/FLOAT/CHAR/STRING token, no error) + go/constant / strconv.Unquote for the value, Go toolchain " + runtime.Version() + "; a Go literal whose value is not an int64 / finite float64 counts as 'must be rejected' (Tengo int = int64, float = float64 per tutorial.md); a leading sign is not part of a literal")
 	r.Assume("(d) compilation is compared through tengo.FormatInstructions of main and of every CompiledFunction constant plus NumParameters/VarArgs/NumLocals, other constants through engine/val.Snapshot; source positions are not compared")
 
-	stopProfile()
 	runtime.KeepAlive(ballast)
 	r.Finish(report.Coverage{
 		States:      states.Load(),
